@@ -41,7 +41,12 @@ impl Listener {
             Err(e) if e.kind() == io::ErrorKind::WouldBlock => {
                 Ok(None)
             }
-            Err(e) => Err(e.into()),
+            // Out of file descriptors (EMFILE / ENFILE), a connection reset before it was accepted, a signal: this
+            // connection attempt is lost, the server is not - `?` in the run loop would end the whole process
+            Err(e) => {
+                eprintln!("accept failed: {}", e);
+                Ok(None)
+            }
         }
     }
     
